@@ -195,20 +195,32 @@ fn invariance(em: &mut Emitter, rng: &mut Rng, n: usize) {
                 s.push_str(ins);
                 s.push_str(sep);
             }
+            // decorators also as the LAST instruction of a body (procedure, branch, repeat body, main)
+            // and directly before an exec / control structure: positions where span merging happens
+            s.push_str(&deco(300));
             s.push_str(&format!("end{}{}begin{}", sep, comment, sep));
             for (i, ins) in body_a.iter().enumerate() {
                 s.push_str(&deco(i + 100));
                 s.push_str(ins);
                 s.push_str(sep);
                 if i == 1 {
+                    s.push_str(&deco(200));
+                    s.push_str(&format!("exec.{}{}", pname, sep));
+                    s.push_str(&format!("repeat.2{}swap{}{}end{}", sep, sep, deco(202), sep));
                     s.push_str(&format!("exec.{}{}", pname, sep));
                     if use_if {
+                        s.push_str(&deco(203));
                         s.push_str(&format!(
-                            "push.1{}if.true{}exec.{}{}else{}push.5 drop{}end{}",
-                            sep, sep, pname, sep, sep, sep, sep
+                            "push.1{}if.true{}exec.{}{}else{}push.5 drop{}{}end{}",
+                            sep, sep, pname, sep, sep, sep, deco(205), sep
                         ));
                     }
                 }
+            }
+            // (a decorator with no operation before it in its span makes the assembler panic -
+            // recorded in DESIGN.md section 6 item 9 - so it is only placed after an instruction)
+            if body_a.len() > 2 {
+                s.push_str(&deco(400));
             }
             s.push_str("end");
             s
@@ -228,7 +240,7 @@ fn invariance(em: &mut Emitter, rng: &mut Rng, n: usize) {
             (plain.clone(), true, "debug mode"),
             (
                 mk("foo", " ", "", &|i| {
-                    if (dsel >> (i % 60)) & 1 == 1 {
+                    if (dsel >> (i % 60)) & 1 == 1 || (i >= 200 && (dsel >> ((i * 7) % 61)) & 3 != 0) {
                         format!("{} ", decorators[(i + dsel as usize) % decorators.len()])
                     } else {
                         String::new()
